@@ -162,9 +162,9 @@ CHECKS["C18"] = dict(
 
 CHECKS["C17"] = dict(
     engine=E3,
-    technique="stateless exploration of all thread schedules (iterative preemption bounding with global-state-key pruning) of the real PFCP loop with 2-3 peers, 1-3 concurrent report producers, scheduler-fired transaction timers and a Stop thread; oracle per schedule: no panic, no deadlock, every notification/timeout handled exactly once, and after Stop no thread left and no timer armed. Complemented (not decided) by a free-running go -race pass of the same kind of scenario on the unrewritten code",
-    text="Model checking of the implementation under a controlled scheduler: Stop, producers, timer callbacks and peers are threads whose every interleaving within the preemption bound is executed on the mechanically rewritten real code. The two shutdown panics (send on a channel closed by the exiting loop) are reproduced on every run and recorded as known findings; any other panic, deadlock, duplicate or lost notification, surviving goroutine or armed timer fails the check. Data races proper cannot be seen by a cooperative scheduler (its hand-offs are happens-before edges); a separate free-running race-detector pass reports them under evidence key race_pass and is sampling, i.e. a complement that decides nothing.",
-    note=E3_NOTE + " The property's own quantifier text speaks of randomised stress; the deciding step here is the exhaustive schedule enumeration, the randomised -race run is only the complement for unsynchronised accesses.",
+    technique="stateless exploration of all thread schedules (iterative preemption bounding, global-state-key pruning) of the real PFCP loop with 2-3 peers, 1-3 concurrent report producers, scheduler-fired transaction timers and a Stop thread, and of the real periodic server with its ticker goroutines; per schedule: (a) happens-before data-race oracle - vector clocks over go/channel/close/AfterFunc edges, every field, map and slice-element access of internal/pfcp and internal/forwarder/perio reported by inserted instrumentation - (b) no panic, no deadlock, every notification/timeout handled exactly once, (c) after Stop no thread left and no timer armed",
+    text="Model checking of the implementation under a controlled scheduler. Stop, producers, timer callbacks, tickers and peers are threads whose every interleaving within the preemption bound is executed on the mechanically rewritten real code. Data-race freedom is decided on each of those schedules by a happens-before oracle inside the scheduler (a race is two accesses to one location, one a write, with no synchronisation path between them - independent of how the schedule happened to order them), so a single added access from a timer callback, producer or the Stop path is flagged in every schedule in which both accesses occur. The two shutdown panics (send on a channel closed by the exiting loop) and the unsynchronised s.conn read in Stop are reproduced on every run and recorded as known findings; anything else fails the check. A free-running go -race pass of the same kind of scenario on the unrewritten code is kept as a sampled complement (evidence key race_pass); it decides nothing.",
+    note=E3_NOTE + " The property's own quantifier text speaks of randomised stress; the deciding step here is exhaustive schedule enumeration with the race oracle, within the stated bounds. Accesses made inside other packages (gtp5g driver, go-pfcp message objects, logrus) are outside the instrumented set.",
     design_ref="DESIGN.md section 5, C17",
 )
 
